@@ -124,6 +124,138 @@ theorem C14_switch_meets_spec (c : Cfg) (path search hash base : Str) (new : Nat
     refine ⟨_, h1, ?_⟩
     simp only [Spec.switchOk, hu, dropSuffix_append, h2, dropPrefix_append, h3]
 
+/-! ### the localized segments *are* rewritten -/
+
+/-- what the Boolean judgement `Spec.sameRouteServes` says: if some route of the old locale's table serves `r`
+    (narrow reading `servesRowExact`), then there is an index `i` such that route `i` of the old table serves `r`
+    and route `i` of the new table serves `r'` -/
+theorem C14_sameRouteServes_iff (tA tB : Tables) (r r' : List Str) :
+    Spec.sameRouteServes tA tB r r' = true ↔
+      ((∃ row ∈ tA, Spec.servesRowExact row r = true) →
+        ∃ i rowA rowB, tA[i]? = some rowA ∧ tB[i]? = some rowB ∧
+          Spec.servesRow rowA r = true ∧ Spec.servesRow rowB r' = true) := by
+  have hp : ∀ (tA tB : Tables), Spec.pairServes tA tB r r' = true ↔
+      ∃ i rowA rowB, tA[i]? = some rowA ∧ tB[i]? = some rowB ∧
+        Spec.servesRow rowA r = true ∧ Spec.servesRow rowB r' = true := by
+    intro tA
+    induction tA with
+    | nil => intro tB; simp [Spec.pairServes]
+    | cons a as ih =>
+      intro tB
+      cases tB with
+      | nil => simp [Spec.pairServes]
+      | cons b bs =>
+        simp only [Spec.pairServes, Bool.or_eq_true, Bool.and_eq_true, ih bs]
+        constructor
+        · rintro (⟨h1, h2⟩ | ⟨i, ra, rb, hA, hB, h1, h2⟩)
+          · exact ⟨0, a, b, by simp, by simp, h1, h2⟩
+          · exact ⟨i + 1, ra, rb, by simpa using hA, by simpa using hB, h1, h2⟩
+        · rintro ⟨i, ra, rb, hA, hB, h1, h2⟩
+          cases i with
+          | zero => simp at hA hB; subst hA; subst hB; exact Or.inl ⟨h1, h2⟩
+          | succ i => exact Or.inr ⟨i, ra, rb, by simpa using hA, by simpa using hB, h1, h2⟩
+  simp only [Spec.sameRouteServes, Spec.sameRouteServesIf, Bool.or_eq_true, Bool.not_eq_true', hp]
+  constructor
+  · rintro (h | h) hex
+    · obtain ⟨row, hrow, hs⟩ := hex
+      rw [List.any_eq_false] at h
+      exact absurd hs (h row hrow)
+    · exact h
+  · intro h
+    cases hany : tA.any (fun row => Spec.servesRowExact row r) with
+    | false => exact Or.inl rfl
+    | true =>
+      rw [List.any_eq_true] at hany
+      exact Or.inr (h hany)
+
+/-- the strong judgement contains the plain one -/
+theorem C14_switchOkStrong_switchOk (names : List Str) (tA tB : Option Tables) (path search hash base : Str)
+    (new : Nat) (loc : Option Nat) (out : Str)
+    (h : Spec.switchOkStrong names tA tB path search hash base new loc out = true) :
+    Spec.switchOk names tA tB path search hash base new loc out = true := by
+  simp only [Spec.switchOkStrong, Spec.switchOkWith] at h
+  simp only [Spec.switchOk]
+  cases h1 : Spec.afterBase path base with
+  | none => rfl
+  | some rest =>
+    rw [h1] at h
+    cases h2 : Spec.dropSuffix out (Spec.queryAndFragment search hash) with
+    | none => rw [h2] at h; simp at h
+    | some p =>
+      rw [h2] at h
+      cases h3 : Spec.dropPrefix (Spec.segments base ++ Spec.localePrefix names new) (Spec.segments p) with
+      | none => rw [h3] at h; simp at h
+      | some r' =>
+        rw [h3] at h
+        simp only [Bool.and_eq_true] at h
+        exact h.1
+
+/-- **Switching rewrites the localized segments** (it does not merely keep them).
+Under the hypotheses of `C14_switch_meets_spec` (well-formed locale names, route tables of the shape the router
+generates — `compatOpt`, which includes that non-empty static segments contain no `/`): `get_new_path` does not
+panic and its result satisfies `Spec.switchOkStrong`: it satisfies `Spec.switchOk`, and when both locales have a
+route table and some route of the old locale serves the old remaining segments (reading `Spec.servesRowExact`),
+the new remaining segments are served by the route with the same index in the new locale's table
+(`C14_sameRouteServes_iff`).  As the two tables differ only in localized static segments, a localized segment of
+the served route is necessarily replaced by its counterpart.
+
+The ideal statement, with the premise "some route of the old locale serves the segments the way `leptos_router`
+does" (`Spec.servesRow`), is `C14_switch_rewrites_localized_full_statement`; it is *false* of `get_new_path`
+(`C14_switch_rewrites_localized_full_refuted`). -/
+theorem C14_switch_rewrites_localized (c : Cfg) (path search hash base : Str) (new : Nat) (loc : Option Nat)
+    (hn : GoodNames c.names) (hnew : new < c.names.length) (hloc : ∀ l, loc = some l → l < c.names.length)
+    (hc : Spec.compatOpt (c.lookup (loc.getD 0)) (c.lookup new) = true) :
+    ∃ out, c.getNewPath path search hash base new loc = .ok out ∧
+      Spec.switchOkStrong c.names (c.lookup (loc.getD 0)) (c.lookup new) path search hash base new loc out = true := by
+  cases hu : Spec.afterBase path base with
+  | none =>
+    have hs : stripBasePath path base = none := by
+      rw [afterBase_eq] at hu
+      cases h : stripBasePath path base with
+      | none => rfl
+      | some r => rw [h] at hu; simp at hu
+    exact ⟨(baseBuilder base (c.name new) (new == 0)).build ++ urlSuffix search hash,
+      by simp only [Cfg.getNewPath, Cfg.newPathname, newPathname, hs],
+      by simp [Spec.switchOkStrong, Spec.switchOkWith, hu]⟩
+  | some rest =>
+    have hu' := hu
+    rw [afterBase_eq] at hu'
+    cases hs : stripBasePath path base with
+    | none => rw [hs] at hu'; simp at hu'
+    | some rest0 =>
+      rw [hs] at hu'
+      simp only [Option.map_some, Option.some.injEq] at hu'
+      subst hu'
+      have hgn : Spec.goodSeg (c.name new) = true := by
+        apply hn; simp [Cfg.name, List.getD, hnew]
+      have hold : ∀ l, loc.map c.name = some l → l ≠ [] := by
+        intro l hl
+        cases loc with
+        | none => simp at hl
+        | some k =>
+          simp at hl; subst hl
+          have : Spec.goodSeg (c.name k) = true := by
+            apply hn; simp [Cfg.name, List.getD, hloc k rfl]
+          exact (goodSeg_iff.mp this).1
+      obtain ⟨p, r', h1, h2, h3, h4⟩ :=
+        newPathname_spec_strong path base (c.name new) (new == 0) (loc.map c.name) _ _ hgn hold hc rest0 hs
+      refine ⟨p ++ Spec.queryAndFragment search hash, ?_, ?_⟩
+      · simp only [Cfg.getNewPath, Cfg.newPathname, h1, urlSuffix_eq]
+      · have hseg : Spec.segments p = Spec.segments base ++ Spec.localePrefix c.names new ++ r' := by
+          simp only [segments_eq, h2, Spec.localePrefix, Cfg.name]
+        rw [← restOf_eq c.names _ loc hloc] at h3 h4
+        simp only [Spec.switchOkStrong, Spec.switchOkWith, hu, dropSuffix_append, hseg, dropPrefix_append, h3, h4,
+          Bool.and_self]
+
+/-- the ideal form of `C14_switch_rewrites_localized`: the premise of the strong judgement is "some route of the old
+    locale serves the old remaining segments" in the full reading `Spec.servesRow` (as `leptos_router` serves them) -/
+def C14_switch_rewrites_localized_full_statement : Prop :=
+  ∀ (c : Cfg) (path search hash base : Str) (new : Nat) (loc : Option Nat),
+    GoodNames c.names → new < c.names.length → (∀ l, loc = some l → l < c.names.length) →
+    Spec.compatOpt (c.lookup (loc.getD 0)) (c.lookup new) = true →
+    ∃ out, c.getNewPath path search hash base new loc = .ok out ∧
+      Spec.switchOkFull c.names (c.lookup (loc.getD 0)) (c.lookup new) path search hash base new loc out = true
+
 /-- no table at all (the state before `generate_routes` ran, and the one the harness' plain cases use):
     the remaining segments are kept as they are -/
 theorem C14_switch_no_tables (names : List Str) (path search hash base : Str) (new : Nat) (loc : Option Nat)
@@ -328,5 +460,68 @@ example :
                              (2, [[.static "a-propos".toList], [.param "id".toList]])]⟩
     Spec.roundtripHyp c.names (c.lookup 0) (c.lookup 2) [] 0 2 ["a-propos".toList] = false ∧
     c.switchSeq [] "/a-propos".toList (some 0) [2, 0] = .ok ["/fr/a-propos".toList, "/about".toList] := by decide
+
+/-! ### the strong judgement: non-vacuity, what it rejects, and what `get_new_path` does not do -/
+
+/-- a localized segment below a nested route with an empty path (`<ParentRoute path="">` under `<I18nRoute>`) -/
+private def tEnNested : Tables := [[.static [], .static [], .static "about".toList], [.static [], .param "id".toList, .static "x".toList]]
+private def tFrNested : Tables := [[.static [], .static [], .static "a-propos".toList], [.static [], .param "id".toList, .static "x".toList]]
+private def cfgNested : Cfg := ⟨names4, [(0, tEnNested), (2, tFrNested)]⟩
+
+private theorem names4_good : GoodNames names4 := by unfold GoodNames; decide
+
+/-- the hypotheses of `C14_switch_rewrites_localized` hold on that table; `/about` (en → fr) is rewritten to
+    `/fr/a-propos`, which the strong judgement accepts; the un-rewritten `/fr/about` (what the code returns when the
+    nested empty segment is not skipped) is accepted by `switchOk` but rejected by `switchOkStrong` -/
+example : GoodNames cfgNested.names ∧ Spec.compatOpt (cfgNested.lookup 0) (cfgNested.lookup 2) = true :=
+  ⟨names4_good, by decide⟩
+example : cfgNested.getNewPath "/about".toList "a=1".toList "#top".toList [] 2 (some 0) = .ok "/fr/a-propos?a=1#top".toList ∧
+    Spec.switchOkStrong names4 (cfgNested.lookup 0) (cfgNested.lookup 2) "/about".toList "a=1".toList "#top".toList [] 2
+      (some 0) "/fr/a-propos?a=1#top".toList = true := by decide
+example : Spec.switchOk names4 (cfgNested.lookup 0) (cfgNested.lookup 2) "/about".toList [] [] [] 2 (some 0)
+      "/fr/about".toList = true ∧
+    Spec.switchOkStrong names4 (cfgNested.lookup 0) (cfgNested.lookup 2) "/about".toList [] [] [] 2 (some 0)
+      "/fr/about".toList = false := by decide
+/-- the premise is not idle: the route serves `/about` in both readings -/
+example : Spec.servesRowExact [.static [], .static [], .static "about".toList] ["about".toList] = true ∧
+    Spec.servesRow [.static [], .static [], .static "a-propos".toList] ["about".toList] = false := by decide
+
+/-- a route that ends in an index route (`<ParentRoute path="about"><Route path=""/></ParentRoute>`) -/
+private def cfgTrailing : Cfg :=
+  ⟨names4, [(0, [[.static [], .static "about".toList, .static []]]), (2, [[.static [], .static "a-propos".toList, .static []]])]⟩
+/-- a route with an optional parameter, `about/:id?` -/
+private def cfgOptional : Cfg :=
+  ⟨names4, [(0, [[.static [], .static "about".toList, .optional "id".toList]]),
+            (2, [[.static [], .static "a-propos".toList, .optional "id".toList]])]⟩
+
+/-- **The ideal statement is false of `get_new_path`** (known limitation of `match_path_segments`, present in the
+    Rust code, mirrored by the model): a route whose last elements consume nothing — here the index route
+    `about` / `""` — is not recognised once the path's segments are used up, so `/about` (en → fr) comes out as
+    `/fr/about`, a URL the fr table does not serve, although the en table serves `/about`. -/
+theorem C14_switch_rewrites_localized_full_refuted : ¬ C14_switch_rewrites_localized_full_statement := by
+  intro h
+  obtain ⟨out, h1, h2⟩ := h cfgTrailing "/about".toList [] [] [] 2 (some 0) names4_good (by decide)
+    (by intro l hl; cases hl; decide) (by decide)
+  have e : cfgTrailing.getNewPath "/about".toList [] [] [] 2 (some 0) = .ok "/fr/about".toList := by decide
+  rw [e] at h1
+  cases h1
+  revert h2
+  decide
+
+/-- the three shapes on which `get_new_path` leaves a localized segment of a served route as it is (each result is
+    accepted by `switchOkStrong`, whose premise is the narrow reading, and rejected by the ideal `switchOkFull`):
+    a trailing empty static segment; an optional parameter that is absent at the end of the route; an optional
+    parameter that is present (it is only recognised when the segment is the parameter's own name, `/about/id`) -/
+example : cfgTrailing.getNewPath "/about".toList [] [] [] 2 (some 0) = .ok "/fr/about".toList ∧
+    Spec.switchOkStrong names4 (cfgTrailing.lookup 0) (cfgTrailing.lookup 2) "/about".toList [] [] [] 2 (some 0) "/fr/about".toList = true ∧
+    Spec.switchOkFull names4 (cfgTrailing.lookup 0) (cfgTrailing.lookup 2) "/about".toList [] [] [] 2 (some 0) "/fr/about".toList = false := by
+  decide
+example : cfgOptional.getNewPath "/about".toList [] [] [] 2 (some 0) = .ok "/fr/about".toList ∧
+    Spec.switchOkFull names4 (cfgOptional.lookup 0) (cfgOptional.lookup 2) "/about".toList [] [] [] 2 (some 0) "/fr/about".toList = false := by
+  decide
+example : cfgOptional.getNewPath "/about/5".toList [] [] [] 2 (some 0) = .ok "/fr/about/5".toList ∧
+    Spec.switchOkFull names4 (cfgOptional.lookup 0) (cfgOptional.lookup 2) "/about/5".toList [] [] [] 2 (some 0) "/fr/about/5".toList = false ∧
+    cfgOptional.getNewPath "/about/id".toList [] [] [] 2 (some 0) = .ok "/fr/a-propos/id".toList := by
+  decide
 
 end I18nVerif.Router
